@@ -42,6 +42,119 @@ theorem operands_left_to_right (fns : List FnDef) (n : Nat) (env : Env) (op : Bi
   rename_i q
   cases binop op p.2 q.2 <;> simp [pure_eq, R.ok, R.stuck]
 
+/-- the host call `==` / `!=` on two host values stands for -/
+def eqCalls (ne : Bool) (a b : Val) : Trace :=
+  match hostEq ne a b with
+  | some (t, _) => t
+  | none => []
+
+/-- `==` / `!=` on a registered host type (`eqH`): the left operand's calls, then the right
+    operand's, then (only if both ended normally) the call of the type's equality. -/
+theorem host_eq_operands_left_to_right (fns : List FnDef) (n : Nat) (env : Env) (ne : Bool) (l r : Expr) :
+    (evalExpr fns (n + 1) env (.eqH ne l r)).tr
+      = (evalExpr fns n env l).tr
+        ++ (evalExpr fns n env l).after (fun p => (evalExpr fns n p.1 r).tr
+            ++ (evalExpr fns n p.1 r).after (fun q => eqCalls ne p.2 q.2)) := by
+  simp only [evalExpr, bind_eq, R.bind_tr]
+  congr 1
+  unfold R.after
+  cases (evalExpr fns n env l).out <;> simp
+  rename_i p
+  cases (evalExpr fns n p.1 r).out <;> simp
+  rename_i q
+  unfold eqCalls
+  cases hostEq ne p.2 q.2 <;> simp [pure_eq, R.ok, R.stuck, R.bind, R.emits]
+
+/-- **`==` / `!=` on two values of the registered host type call the type's equality exactly
+    once, after both operands**: the calls of `l == r` are those of `l`, those of `r`, then one
+    call of the equality on the two values (`!=` negates its answer). -/
+theorem eq_on_host_type_calls_after_operands (fns : List FnDef) (n : Nat) (env env1 env2 : Env) (ne : Bool) (l r : Expr)
+    (t1 t2 : Trace) (x y : Int)
+    (hl : (evalExpr fns n env l).yields t1 (env1, .tok x)) (hr : (evalExpr fns n env1 r).yields t2 (env2, .tok y)) :
+    (evalExpr fns (n + 1) env (.eqH ne l r)).yields (t1 ++ t2 ++ [⟨fnEq, [.tok x, .tok y]⟩])
+      (env2, .bool (if ne then decide (x ≠ y) else decide (x = y))) := by
+  simp only [evalExpr, bind_eq, R.bind_yields hl, R.bind_yields hr]
+  simp [hostEq, pure_eq, R.ok, R.yields, R.bind, R.emits]
+
+/-- … if an operand leaves the function the equality is not called -/
+theorem host_eq_operand_leaves (fns : List FnDef) (n : Nat) (env env1 : Env) (ne : Bool) (l r : Expr)
+    (t1 t2 : Trace) (a v : Val)
+    (hl : (evalExpr fns n env l).yields t1 (env1, a)) (hr : (evalExpr fns n env1 r).leaves t2 v) :
+    (evalExpr fns (n + 1) env (.eqH ne l r)).leaves (t1 ++ t2) v := by
+  simp only [evalExpr, bind_eq, R.bind_yields hl, R.bind_leaves hr]
+  simp [R.leaves]
+
+/-! #### f-string parts, and the `to_string` call the compiler inserts for a part of a host type -/
+
+/-- the host calls converting the value of a part makes: the type's `to_string` for a value of
+    the registered host type, nothing for a primitive -/
+def partCalls (v : Val) : Trace :=
+  match render v with
+  | some (t, _) => t
+  | none => []
+
+/-- F-string parts run left to right, and **the conversion of a part — for a host type an
+    implicit call of its `to_string` — happens right after the part's own evaluation and before
+    the next part runs**: the calls of `{e}rest` are those of `e`, then (only if `e` ended
+    normally) the conversion's, then those of the remaining parts in the environment `e` left. -/
+theorem fstring_parts_left_to_right (fns : List FnDef) (n : Nat) (env : Env) (e : Expr) (rest : Parts) :
+    (evalParts fns (n + 1) env (.expr e rest)).tr
+      = (evalExpr fns n env e).tr
+        ++ (evalExpr fns n env e).after (fun p => partCalls p.2
+            ++ (if (render p.2).isSome then (evalParts fns n p.1 rest).tr else [])) := by
+  simp only [evalParts, bind_eq, R.bind_tr]
+  congr 1
+  unfold R.after
+  cases (evalExpr fns n env e).out <;> simp
+  rename_i p
+  unfold partCalls
+  cases render p.2 <;> simp [R.stuck, R.bind_tr, R.emits, R.after]
+  cases (evalParts fns n p.1 rest).out <;> simp [pure_eq, R.ok]
+
+/-- a literal part makes no call -/
+theorem fstring_literal_part (fns : List FnDef) (n : Nat) (env : Env) (s : String) (rest : Parts) :
+    (evalParts fns (n + 1) env (.str s rest)).tr = (evalParts fns n env rest).tr := by
+  simp only [evalParts, bind_eq, R.bind_tr]
+  unfold R.after
+  cases (evalParts fns n env rest).out <;> simp [pure_eq, R.ok]
+
+/-- **The implicit `to_string` call of a part of the host type sits between that part and the
+    next one**, with the part's value as its argument, and its text goes where the part stands. -/
+theorem fstring_implicit_call_at_its_part (fns : List FnDef) (n : Nat) (env env1 env2 : Env) (e : Expr) (rest : Parts)
+    (t1 t2 : Trace) (x : Int) (s : String)
+    (he : (evalExpr fns n env e).yields t1 (env1, .tok x)) (hr : (evalParts fns n env1 rest).yields t2 (env2, s)) :
+    (evalParts fns (n + 1) env (.expr e rest)).yields (t1 ++ [⟨fnToString, [.tok x]⟩] ++ t2) (env2, tokText x ++ s) := by
+  simp only [evalParts, bind_eq, R.bind_yields he, render]
+  obtain ⟨h1, h2⟩ := hr
+  simp [R.bind, R.emits, h1, h2, pure_eq, R.ok, R.yields]
+
+/-- a part of primitive type is converted without a host call -/
+theorem fstring_primitive_part_no_call (fns : List FnDef) (n : Nat) (env env1 env2 : Env) (e : Expr) (rest : Parts)
+    (t1 t2 : Trace) (v : Val) (sv s : String) (hv : display v = some sv) (hnt : ∀ x, v ≠ .tok x)
+    (he : (evalExpr fns n env e).yields t1 (env1, v)) (hr : (evalParts fns n env1 rest).yields t2 (env2, s)) :
+    (evalParts fns (n + 1) env (.expr e rest)).yields (t1 ++ t2) (env2, sv ++ s) := by
+  have hrd : render v = some ([], sv) := by
+    cases v <;> simp_all [render]
+  simp only [evalParts, bind_eq, R.bind_yields he, hrd]
+  obtain ⟨h1, h2⟩ := hr
+  simp [R.bind, R.emits, h1, h2, pure_eq, R.ok, R.yields]
+
+/-- a part that leaves the function is not converted, and no later part runs -/
+theorem fstring_part_leaves (fns : List FnDef) (n : Nat) (env : Env) (e : Expr) (rest : Parts) (t : Trace) (v : Val)
+    (he : (evalExpr fns n env e).leaves t v) :
+    (evalParts fns (n + 1) env (.expr e rest)).leaves t v := by
+  simp only [evalParts, bind_eq, R.bind_leaves he]
+  simp [R.leaves]
+
+/-- a later part that leaves the function does so after the earlier part's `to_string` call -/
+theorem fstring_call_before_later_part_leaves (fns : List FnDef) (n : Nat) (env env1 : Env) (e : Expr) (rest : Parts)
+    (t1 t2 : Trace) (x : Int) (v : Val)
+    (he : (evalExpr fns n env e).yields t1 (env1, .tok x)) (hr : (evalParts fns n env1 rest).leaves t2 v) :
+    (evalParts fns (n + 1) env (.expr e rest)).leaves (t1 ++ [⟨fnToString, [.tok x]⟩] ++ t2) v := by
+  simp only [evalParts, bind_eq, R.bind_yields he, render]
+  obtain ⟨h1, h2⟩ := hr
+  simp [R.bind, R.emits, h1, h2, R.leaves]
+
 /-- Arguments (a method's receiver is the first of them): first argument first. -/
 theorem arguments_left_to_right (fns : List FnDef) (n : Nat) (env : Env) (e : Expr) (es : Exprs) :
     (evalArgs fns (n + 1) env (.cons e es)).tr
@@ -384,7 +497,11 @@ theorem run_fuel_independent (fns : List FnDef) (args : List Val) (fuel fuel' : 
   enum constructors, record literals (fields lowered and stored in the order in
   which the literal writes them, whatever the order of the record type),
   field access (`x.f` is a lazy path read,
-  `e.f` materialises `e`), list literals, f-strings, string concatenation
+  `e.f` materialises `e`), list literals, f-strings (every part converted — for a
+  value of the registered host type by a logged call of its `to_string`, the call
+  the compiler inserts implicitly — and appended before the next part is lowered),
+  `==` / `!=` on the host type (`eqH`: the lazy `BinOp` value stands for a logged call
+  of the type's equality, made where the value is materialised), string concatenation
   (`desugared_binop`), and `match` (examinee
   materialised once, discriminant switch, one guard chain per discriminant
   with the `_` arms woven in in source order, binders assigned before the
@@ -436,6 +553,27 @@ theorem lowerE_return_partial (fns : List FnDef) (P : Prog) (hP : lowerProg fns 
     (hl : lowerE e c = some (code, value, c')) (ha : Agree env σ)
     (h : evalExpr fns n env e = ⟨t, .ret v⟩) : ExecC P σ code t (.returned v) :=
   ((sim_all fns P (lowerProg_ok fns P hP) n).1 e env c code value c' σ hl ha).2 t v h
+
+open RotoV.LowerS in
+/-- **The lowering keeps an implicit call at its part** (T2 at an f-string whose first
+    interpolated part is a value of the registered host type): if `e` evaluates to the host
+    value `Tok x` after the calls `t1` and the remaining parts make the calls `t2`, then the
+    structured MIR of `f"{e}rest"` makes exactly `t1`, then the `to_string` call on `Tok x`,
+    then `t2` — the conversion is not delayed past any later part — and builds the text.
+    (Partial for the same reasons as `lowerS_trace_partial`.) -/
+theorem lowerS_fstring_implicit_call_partial (fns : List FnDef) (P : Prog) (hP : lowerProg fns = some P) (n : Nat)
+    (e : Expr) (rest : Parts) (env env1 env2 : Env) (c c' : Nat) (code : Code) (value : Value) (σ : Store)
+    (t1 t2 : Trace) (x : Int) (s : String)
+    (hl : lowerE (.fstr (.expr e rest)) c = some (code, value, c')) (ha : Agree env σ)
+    (he : (evalExpr fns n env e).yields t1 (env1, .tok x)) (hr : (evalParts fns n env1 rest).yields t2 (env2, s)) :
+    ∃ σ1 ta tb, ExecC P σ code ta (.normal σ1) ∧ EvalV P σ1 value tb (.str (tokText x ++ s))
+      ∧ t1 ++ [⟨fnToString, [.tok x]⟩] ++ t2 = ta ++ tb ∧ Agree env2 σ1 := by
+  have hp := fstring_implicit_call_at_its_part fns n env env1 env2 e rest t1 t2 x s he hr
+  have hev : evalExpr fns (n + 2) env (.fstr (.expr e rest))
+      = ⟨t1 ++ [⟨fnToString, [.tok x]⟩] ++ t2, .ok (env2, .str (tokText x ++ s))⟩ := by
+    simp only [evalExpr, bind_eq, R.bind_yields hp]
+    simp [pure_eq, R.ok]
+  exact lowerE_trace_partial fns P hP (n + 2) _ env env2 c c' code value σ _ _ hl ha hev
 
 /-- What a function body hands back: its value, or the operand of the `return` that ended it. -/
 def bodyValue : Out (Env × Val) → Option Val
@@ -687,6 +825,36 @@ example : (run demoProg 40 [.int 5]).result ≠ .fuel := by decide
 -- lowerS_run_partial: `run` on the two-function program above
 example : (run demoProg 40 [.int 5]).result = .ok (.int 12) := by decide
 example : demoProg.getLast?.isSome = true := by decide
+-- implicit host calls: `f"{tok(1, 4)}-{emit(2, 9)}{tok(3, 5)}"` — every `to_string` right after its part
+def tokE (k v : Int) : Expr := .host 8 (.cons (.lit (.int k)) (.cons (.lit (.int v)) .nil))
+def demoFStr : Parts := .expr (tokE 1 4) (.str "-" (.expr (emitI 2 9) (.expr (tokE 3 5) .nil)))
+-- (strings do not reduce in the kernel: the example states the call sequence only)
+example : (evalParts [] 9 [] demoFStr).tr.map (·.fn) = [8, 9, 0, 8, 9] := by decide
+example : ((evalParts [] 9 [] demoFStr).tr.map (·.args))
+    = [[.int 1, .int 4], [.tok 4], [.int 2, .int 9], [.int 3, .int 5], [.tok 5]] := by decide
+-- fstring_implicit_call_at_its_part / fstring_primitive_part_no_call: their hypotheses are met
+example : (evalExpr [] 9 [] (tokE 1 4)).yields [⟨8, [.int 1, .int 4]⟩] ([], .tok 4) := by decide
+example : (evalExpr [] 9 [] (emitI 2 9)).yields [⟨0, [.int 2, .int 9]⟩] ([], .int 9) := by decide
+example : ∃ sv, display (.int 9) = some sv := ⟨_, rfl⟩
+-- fstring_part_leaves / fstring_call_before_later_part_leaves
+example : (evalExpr [] 9 [] (.ret (emitI 1 4))).leaves [⟨0, [.int 1, .int 4]⟩] (.int 4) := by decide
+example : ((evalParts [] 9 [] (.expr (tokE 1 4) (.expr (.ret (emitI 2 7)) (.expr (tokE 3 5) .nil)))).tr.map (·.fn)) = [8, 9, 0] := by decide
+-- lowerS_fstring_implicit_call_partial: the f-string is in the lowering model's fragment
+example : (lowerE (.fstr demoFStr) 0).isSome = true := by decide
+-- eq_on_host_type_calls_after_operands: `tok(1, 4) != tok(2, 9)`
+example : (evalExpr [] 9 [] (.eqH true (tokE 1 4) (tokE 2 9))).yields
+    [⟨8, [.int 1, .int 4]⟩, ⟨8, [.int 2, .int 9]⟩, ⟨fnEq, [.tok 4, .tok 9]⟩] ([], .bool true) := by decide
+example : eqCalls false (.tok 3) (.tok 3) = [⟨fnEq, [.tok 3, .tok 3]⟩] := by decide
+-- host_eq_operand_leaves: `tok(1, 4) == (return emit(2, 7))`
+example : (evalExpr [] 9 [] (.eqH false (tokE 1 4) (.ret (emitI 2 7)))).leaves
+    [⟨8, [.int 1, .int 4]⟩, ⟨0, [.int 2, .int 7]⟩] (.int 7) := by decide
+-- T2 on a function with implicit calls: `{ let x1: Tok = tok(1, x0); if x1 == tok(2, 4) { … }; f"{x1}{emit(3, x0)}{tok(4, 5)}" }`
+def demoFn8 : FnDef :=
+  ⟨[0], .let_ 1 (.host 8 (.cons (.lit (.int 1)) (.cons (.var 0) .nil)))
+    (.stmt (.if1 (.eqH false (.var 1) (tokE 2 4)) (.stmt (emitI 5 0) .nil))
+      (.last (.fstr (.expr (.var 1) (.expr (emitVar 3 0) (.expr (tokE 4 5) .nil))))))⟩
+example : (lowerFn demoFn8).isSome = true := by decide
+example : ((evalBlock [] 40 [(0, .int 4)] demoFn8.body).tr.map (·.fn)) = [8, 8, 11, 0, 9, 0, 8, 9] := by decide
 end nonvacuity
 
 end RotoV.C08
